@@ -439,6 +439,21 @@ func cmdCheck(args []string) int {
 				} else if o.AssumeViolated {
 					spurious++
 					lines = append(lines, fmt.Sprintf("SPURIOUS property=%s harness=%s reach witness violates an assumption natively", id, w.Harness))
+				} else if flaky := func() bool {
+					// a failure that is not the same on every run is an effect of Go's randomised map iteration in the
+					// native build (the executor's orders are fixed unless a harness asks for symbolic ones), not a
+					// disagreement between executor and code on this input: three more runs must all fail
+					for r := 0; r < 3; r++ {
+						o2, _, err2 := nativeReplay(*repo, fmt.Sprintf("%s_again%d_%d", runDir, i, r), harnesses, []*engine.Witness{w}, 1)
+						os.RemoveAll(fmt.Sprintf("%s_again%d_%d", runDir, i, r))
+						if err2 == nil && len(o2) == 1 && len(o2[0].Failures) == 0 && o2[0].Panic == "" && !o2[0].Hang {
+							return true
+						}
+					}
+					return false
+				}(); flaky {
+					spurious++
+					lines = append(lines, fmt.Sprintf("SPURIOUS property=%s harness=%s native replay of a reachability witness fails on some runs only (map iteration order): %v", id, w.Harness, o.Failures))
 				} else {
 					// the real build fails the harness assertion on an input the executor judged fine
 					key := w.Harness + "|native"
